@@ -189,16 +189,27 @@ class Attenuated(Case):
                 undefined = sigma is None
         if sigma is None:
             sigma, undefined = 0, True
-        spec = case_of(
-            (x.nan(k), MISS),
-            (undefined, U),
-            (alg.lt(sigma, pval(e.fail)), F),
-            (alg.lt(sigma, pval(e.sus)), S),
-            default=G,
-        )
+        def spec_for(sg):
+            return case_of(
+                (x.nan(k), MISS),
+                (undefined, U),
+                (alg.lt(sg, pval(e.fail)), F),
+                (alg.lt(sg, pval(e.sus)), S),
+                default=G,
+            )
+
+        spec = spec_for(sigma)
+        by_spread = alg.eq(fl, spec)
+        if not symbolic and std and not alg.is_sym(sigma):
+            # concrete reading against the real library: a standard deviation is computed in floating point
+            # (pandas' rolling std by an online update), so a spread that is *exactly* a threshold over the
+            # reals may come out one rounding step on either side of it.  Within that noise either flag is
+            # the statement's flag (T3: the proof reads floats as reals; this is where the real run differs)
+            d = Fraction(1, 10**9) * max(1, abs(Fraction(sigma)))
+            by_spread = alg.or_(by_spread, alg.eq(fl, spec_for(Fraction(sigma) - d)), alg.eq(fl, spec_for(Fraction(sigma) + d)))
         defined_step = alg.ge(n, 2) if (self.params["window"] and self.params["minimum"] == "period") else True
         out = {
-            "flag_by_spread": alg.implies(defined_step, alg.eq(fl, spec)),
+            "flag_by_spread": alg.implies(defined_step, by_spread),
             "statistic_arguments": args_ok,
             "missing_is_missing": alg.implies(x.nan(k), alg.eq(fl, MISS)),
             "missing_only_if_needed": alg.implies(alg.eq(fl, MISS), x.nan(k)),
